@@ -87,6 +87,56 @@ theorem set_layers_last (c : WCfg) (l : Nat) (ops : List BOp) (h : ∀ op ∈ op
       · simp only [WCfg.run, WCfg.step, hn, if_false]
         exact ih (fun o ho => h o (List.mem_cons_of_mem _ ho)) _ h0
 
+/-- the calls that do not ask for encryption to be switched off: everything but `disable_layer` /
+    `set_layers` of a set without ENCRYPT (in particular every `with_compression_level` and every
+    `add_public_keys`) -/
+def _root_.MlaModel.BOp.keepsEncrypt : BOp → Bool
+  | .disable l => l &&& 1 = 0
+  | .setLayers l => l &&& 1 = 1
+  | _ => true
+
+theorem and3_and1 (l : Nat) : (l &&& 3) &&& 1 = l &&& 1 := by
+  rw [Nat.and_assoc]; rfl
+
+/-- **C07.encrypt_kept.**  Once encryption is enabled, no sequence of builder calls other than an explicit
+    `disable_layer(ENCRYPT)` / `set_layers` without ENCRYPT switches it off — whatever compression levels
+    (accepted or refused) and recipient lists are given in between.  (The harness oracle `C07/plaintext`
+    tracks the same thing on the real builder.) -/
+theorem encrypt_kept (ops : List BOp) : ∀ c : WCfg, c.layers < 4 → c.layers &&& 1 = 1 →
+    (∀ op ∈ ops, op.keepsEncrypt = true) → (c.run ops).layers &&& 1 = 1 ∧ (c.run ops).layers < 4 := by
+  have kE : ∀ x < 4, ∀ m < 4, x &&& 1 = 1 → (x ||| m) &&& 1 = 1 ∧ (x ||| m) < 4 := by decide
+  have kD : ∀ x < 4, ∀ m < 4, x &&& 1 = 1 → m &&& 1 = 0 → (x &&& (3 ^^^ m)) &&& 1 = 1 ∧ (x &&& (3 ^^^ m)) < 4 := by decide
+  induction ops with
+  | nil => intro c hc h1 _; exact ⟨h1, hc⟩
+  | cons op ops ih =>
+    intro c hc h1 h
+    have hop := h op List.mem_cons_self
+    have hrest : ∀ o ∈ ops, o.keepsEncrypt = true := fun o ho => h o (List.mem_cons_of_mem _ ho)
+    have hm : ∀ l : Nat, l &&& 3 < 4 := fun l => Nat.lt_of_le_of_lt Nat.and_le_right (by decide)
+    cases op with
+    | enable l =>
+      simp only [WCfg.run, WCfg.step]
+      obtain ⟨a, b⟩ := kE _ hc _ (hm l) h1
+      exact ih _ b a hrest
+    | disable l =>
+      simp only [WCfg.run, WCfg.step]
+      have hl : (l &&& 3) &&& 1 = 0 := by rw [and3_and1]; simpa [BOp.keepsEncrypt] using hop
+      obtain ⟨a, b⟩ := kD _ hc _ (hm l) h1 hl
+      exact ih _ b a hrest
+    | setLayers l =>
+      simp only [WCfg.run, WCfg.step]
+      have hl : (l &&& 3) &&& 1 = 1 := by rw [and3_and1]; simpa [BOp.keepsEncrypt] using hop
+      exact ih _ (hm l) hl hrest
+    | level n =>
+      by_cases hn : 11 < n
+      · simp only [WCfg.run, WCfg.step, hn, if_true]; exact ih _ hc h1 hrest
+      · simp only [WCfg.run, WCfg.step, hn, if_false]; exact ih _ hc h1 hrest
+    | addKeys ks =>
+      simp only [WCfg.run, WCfg.step]; exact ih _ hc h1 hrest
+
+/-- the history of seed C07-g: `new()`, `enable_layer(ENCRYPT)`, `with_compression_level(0)` -/
+example : ((WCfg.new [7] [9]).run [.enable 1, .level 0, .addKeys [[1]]]).layers &&& 1 = 1 := by decide
+
 /-- non-vacuity: a history with a refused level, two `add_public_keys` calls and a layer switched off
     and on again -/
 example : (WCfg.dflt [7] [9]).run [.level 12, .addKeys [[1]], .disable 1, .level 3, .enable 1, .addKeys [[2], [3]]] =
